@@ -40,7 +40,7 @@ ASSUMPTIONS = [
     'case A oracle uses the position cells of the same result (a WHERE/FROM bug cannot raise a C12 alarm); case B aligns returned rows to the all-postings sequence by the scan index delivered by the harness function verif_rowno',
     'Inventory arithmetic (add_position, reduce) is beancount core and trusted',
 ]
-PROBES = ['long_ledger_over_128_postings', 'ordered_output_resorted', 'same_transaction_object_twice', 'balance_only_as_later_operand', 'aggregate_over_balance_checked', 'equal_consecutive_postings', 'scan_between_balance_refs', 'balance_scan_between_balance_refs', 'nested_scan_died_halfway', 'other_connection_scan',
+PROBES = ['predecessor_statement', 'predecessor_scan_died', 'long_ledger_over_128_postings', 'ordered_output_resorted', 'same_transaction_object_twice', 'balance_only_as_later_operand', 'aggregate_over_balance_checked', 'equal_consecutive_postings', 'scan_between_balance_refs', 'balance_scan_between_balance_refs', 'nested_scan_died_halfway', 'other_connection_scan',
           'where_consults_balance', 'from_clause_subject', 'lots_reduced_in_selection', 'in_subquery_touching_balance',
           'three_refs', 'nested_result_checked', 'rider_checked']
 
@@ -137,7 +137,25 @@ def generate(rng, tier, run):
         # the balance is defined in ledger order whatever the output order: the oracle re-sorts the
         # returned rows by their scan index (verif_rowno) before checking
         text += ' ORDER BY ' + order
+    # statements executed on the same connection before the subject: abandoned scans (LIMIT), scans that die
+    # (cancellation in a later row), the subject itself (re-execution on the same cursor), aggregates over balance
+    pre = []
+    for _ in range(rng.choice([0, 0, 1, 1, 2])):
+        kind = rng.choice(['limit', 'dies', 'same', 'agg', 'plain'])
+        if kind == 'limit':
+            pre.append({'stmt': f'SELECT account, balance LIMIT {rng.randint(1, 4)}'})
+        elif kind == 'dies':
+            pre.append({'stmt': 'SELECT verif_fault(balance, 0) AS b, account, balance AS b2',
+                        'fault': {'kind': rng.choice(['cancel', 'udf']), 'k': 0, 'n': rng.randint(0, 5)}})
+        elif kind == 'same':
+            pre.append({'stmt': text, 'same_cursor': True})
+        elif kind == 'agg':
+            pre.append({'stmt': 'SELECT account, first(balance) AS f, last(balance) AS l, count(balance) AS n, balance GROUP BY account, balance LIMIT 3'
+                        if rng.random() < 0.3 else 'SELECT account, last(balance) AS l, count(balance) AS n GROUP BY account'})
+        else:
+            pre.append({'stmt': 'SELECT date, account, balance WHERE number > 0'})
     return {
+        'pre': pre,
         'world': {'ledger': ledger, 'other': other},
         'subject': {'text': text, 'refs': refs, 'caseB': caseB, 'from': frm, 'filter': flt,
                     'where': ' AND '.join(conds) if conds else None, 'order': order,
@@ -314,11 +332,32 @@ def execute(case, keep_log=False):
         for kk, n in (case.get('nested') or {}).items():
             S.reenter_plan[int(kk)] = make_reenter(int(kk), n)
 
+        # predecessors on the same connection (their own results are not judged here)
+        subject_cursor = conn.cursor()
+        for pr in case.get('pre') or []:
+            stats['ops'] += 1
+            S.probes['predecessor_statement'] += 1
+            if pr.get('fault'):
+                S.arm(dict(pr['fault']))
+            try:
+                cur_ = subject_cursor if pr.get('same_cursor') else conn.cursor()
+                cur_.execute(stmts.for_execute(pr['stmt'], False))
+                cur_.fetchall()
+                log.add('pre', pr['stmt'][:40], 'ok')
+            except core.HarnessError:
+                raise
+            except BaseException as e:
+                if pr.get('fault'):
+                    S.probes['predecessor_scan_died'] += 1
+                log.add('pre', pr['stmt'][:40], 'err', core.exc_class(e))
+            finally:
+                S.armed = None
         # the subject
         stats['ops'] += 1
         arg = stmts.for_execute(sub['text'], sub.get('real_parse', False))
         try:
-            desc, rows = run_query(conn, arg)
+            subject_cursor.execute(arg)
+            desc, rows = subject_cursor.description, subject_cursor.fetchall()
         except core.HarnessError:
             raise
         except BaseException as e:
@@ -514,6 +553,10 @@ def simplify(case):
     if case.get('riders'):
         c = copy.deepcopy(case)
         c['riders'] = False
+        yield c
+    for i in range(len(case.get('pre') or [])):
+        c = copy.deepcopy(case)
+        del c['pre'][i]
         yield c
 
 
